@@ -8,6 +8,7 @@ package main
 // each fed with every profile (item URL / Content-Type / Server) listed for the space.
 
 import (
+	"bytes"
 	"fmt"
 	"os"
 	"path/filepath"
@@ -115,15 +116,16 @@ func m3u8Lines(variants bool) []string {
 // ---------------------------------------------------------------- valid samples
 
 type sample struct {
-	Name     string
-	Profiles []string
-	Dict     []string
-	Data     []byte
-	Small    bool                  // 2-mutation neighbourhood in thorough
-	Big      bool                  // thorough only
-	Subst    func(off int) bool    // where token substitution applies (nil = everywhere)
-	Del      func(off int) bool    // where byte deletion applies (nil = everywhere)
-	Want     string                // self-test: this URL must be extracted from the unmutated sample
+	Name      string
+	Profiles  []string
+	Dict      []string
+	Data      []byte
+	Small     bool               // 2-mutation neighbourhood in thorough
+	Big       bool               // thorough only
+	CrossOnly bool               // not mutated, only fed unmodified under every profile
+	Subst     func(off int) bool // where token substitution applies (nil = everywhere)
+	Del       func(off int) bool // where byte deletion applies (nil = everywhere)
+	Want      string             // self-test: this URL must be extracted from the unmutated sample
 }
 
 const sampleHTML = `<!DOCTYPE html><html><head><base href="http://b.example/x/"><title>t</title>
@@ -193,8 +195,6 @@ func outsideStreams(data []byte) func(int) bool {
 	}
 }
 
-func first8K(off int) bool { return off < 8192 }
-
 func repoFile(rel string) []byte {
 	b, err := os.ReadFile(filepath.Join(envOr("VERIF_REPO", "/repo"), rel))
 	if err != nil {
@@ -206,6 +206,8 @@ func repoFile(rel string) []byte {
 func samples() []sample {
 	const td = "internal/pkg/postprocessor/extractor/testdata/"
 	pdf := repoFile(td + "InternetArchiveDeveloperPortal.pdf")
+	rss := repoFile(td + "rss2.0.xml")
+	rssHead := append(append([]byte(nil), rss[:bytes.Index(rss, []byte("</item>"))+7]...), "\n</channel></rss>\n"...)
 	return []sample{
 		{Name: "html", Profiles: []string{"html", "reddit-html", "ts-post"}, Dict: alphaHTML, Data: []byte(sampleHTML), Want: "http://a.example/j.js"},
 		{Name: "json", Profiles: []string{"json", "ts-status"}, Dict: alphaJSON, Data: []byte(sampleJSON), Small: true, Want: "http://c.example/y.jpg"},
@@ -221,7 +223,9 @@ func samples() []sample {
 		{Name: "m3u8-media", Profiles: []string{"m3u8"}, Dict: alphaM3U8, Data: []byte(sampleMedia), Small: true, Want: "http://a.example/seg1.ts"},
 		{Name: "text", Profiles: []string{"text", "html"}, Dict: alphaText, Data: []byte(sampleText), Want: ""},
 		{Name: "pdf-tiny", Profiles: []string{"pdf"}, Dict: alphaPDF, Data: tinyPDF(), Want: "http://a.example/from.pdf"},
-		{Name: "testdata/rss2.0.xml", Profiles: []string{"xml"}, Dict: alphaXML, Data: repoFile(td + "rss2.0.xml"), Big: true, Subst: first8K, Del: first8K, Want: "https://blog.archive.org/feed/"},
+		// a full pass over the 88 KB feed costs ~0.1 s (xurls), so the neighbourhood is taken around its channel header + first item (5.4 KB)
+		{Name: "testdata/rss2.0.xml[first item]", Profiles: []string{"xml"}, Dict: alphaXML, Data: rssHead, Big: true, Want: "https://blog.archive.org/feed/"},
+		{Name: "testdata/rss2.0.xml", Profiles: []string{"xml"}, Data: rss, Big: true, CrossOnly: true},
 		{Name: "testdata/InternetArchiveDeveloperPortal.pdf", Profiles: []string{"pdf"}, Dict: alphaPDF, Data: pdf, Big: true, Subst: outsideStreams(pdf), Want: "https://archive.org/about/"},
 	}
 }
@@ -269,7 +273,9 @@ var carriers = []struct {
 		return &Case{Space: sp, Profile: "html", Status: 200, Link: "<" + s + `>; rel="next"`, Body: []byte("<html><a href=x>")}
 	}},
 	{"a-href", func(sp, s string) *Case { return body(sp, "html", `<html><a href="`+s+`">l</a>`) }},
-	{"base+img-src", func(sp, s string) *Case { return body(sp, "html", `<html><base href="`+s+`"><img src="`+s+`"><a href="p">`) }},
+	{"base+img-src", func(sp, s string) *Case {
+		return body(sp, "html", `<html><base href="`+s+`"><img src="`+s+`"><a href="p">`)
+	}},
 	{"json-string", func(sp, s string) *Case { return body(sp, "json", `{"k":"`+s+`"}`) }},
 	{"m3u8-uri", func(sp, s string) *Case { return body(sp, "m3u8", m3u8Head+"#EXTINF:1,\n"+s+"\n") }},
 	{"xml-text", func(sp, s string) *Case { return body(sp, "xml", `<r><a href="`+s+`">`+s+`</a></r>`) }},
@@ -298,7 +304,7 @@ func mutantSpace(name, about string, sel func(s *sample, th bool) (use, two bool
 	return space{Name: name, About: about, Gen: func(th bool, emit func(*Case)) {
 		for _, s := range samples() {
 			use, two, profs := sel(&s, th)
-			if !use {
+			if !use || s.CrossOnly {
 				continue
 			}
 			one := func(base []byte, pre string, then func(m []byte, d string)) {
@@ -363,7 +369,7 @@ func spaces() []space {
 				}
 				return !s.Big, false, s.Profiles[:1]
 			}),
-		mutantSpace("mutants-testdata", "thorough only: 1-mutation neighbourhood of the two testdata files: the 39 KB PDF (every truncation, every deletion, token substitution outside stream data) and rss2.0.xml (every truncation; deletion and substitution in the first 8 KB)",
+		mutantSpace("mutants-testdata", "thorough only: 1-mutation neighbourhood of the two testdata files: the 39 KB PDF (every truncation, every deletion, token substitution outside stream data) and rss2.0.xml cut down to its channel header and first item, 5.4 KB (complete)",
 			func(s *sample, th bool) (bool, bool, []string) { return th && s.Big, false, s.Profiles }),
 		{Name: "m3u8-lines",
 			About: "\\n#EXTM3U\\n followed by all sequences of <= N lines; N=2 (thorough 3) over every tag line the decoder knows x {valid, empty, garbage attribute} and N=3 (thorough 4) over the valid forms",
@@ -390,7 +396,7 @@ func spaces() []space {
 		tokenSpace("text-tokens", alphaText, []string{"html", "text"}, 4, 5, nil),
 		tokenSpace("html-tokens", alphaHTML, []string{"html"}, 4, 5, nil),
 		tokenSpace("html-tokens-sites", alphaHTML, []string{"reddit-html", "ts-post", "text", "ina"}, 3, 4, nil),
-		tokenSpace("script-tokens", alphaScript, []string{"html"}, 4, 5, func(s string) string { return "<html><script>" + s + "</script>" }),
+		tokenSpace("script-tokens", alphaScript, []string{"html"}, 5, 5, func(s string) string { return "<html><script>" + s + "</script>" }),
 		tokenSpace("script-json-tokens", alphaScript, []string{"html"}, 4, 5, func(s string) string {
 			return `<html><script type="application/json">` + s + `</script><div data-item='` + s + `' style='` + s + `'>`
 		}),
